@@ -58,6 +58,10 @@ class Opts:
         self.kdurs = [1, 2, 3, 4, 7, 12]
         self.backward_ann = False  # main thread carries '## backward ##' annotations (not nested in each other)
         self.force_second_thread = False
+        self.first_op_children = False  # the first file entry may enclose other calls
+        self.pad_entries = 0  # number of metadata entries inserted right after the first entry (pushes file positions up)
+        self.corr_base = None  # None: 1000 * (rank + 1); otherwise correlation ids count up from this base (small ids -> narrow dtypes)
+        self.extra_names = 0  # number of extra leaf operators with unique names appended to the main thread (large vocabulary)
         self.rank_vocab = None  # optional list of (op_names, kernel_names), one per rank (cycled)
         self.body_fn = None  # optional (draw, opts, streams) -> items: replaces the top-level body of the main thread
         self.annotations = True
@@ -177,11 +181,21 @@ def thread_program(draw, o: Opts, streams: List[int], with_steps: bool, nsteps: 
 def rank_program(draw, o: Opts, rank: int, nsteps: int, first_step: int) -> Dict[str, Any]:
     ns = pick(draw, list(range(1, o.streams + 1)))
     streams = STREAMS[:ns]
-    prog: Dict[str, Any] = {"rank": rank, "start": pick(draw, [0, 0, 3, 10]), "threads": []}
+    prog: Dict[str, Any] = {"rank": rank, "start": pick(draw, [0, 0, 3, 10]), "threads": [], "corr_base": o.corr_base,
+                            "pad": o.pad_entries}
     # main thread always starts with a plain host operator (first file entry)
     first = {"t": "op", "name": pick(draw, vocab.CPU_OPS), "cat": "cpu_op", "pre": 0, "post": pick(draw, SMALL),
              "min": pick(draw, [1, 2]), "kids": []}
-    main = [first] + draw(thread_program(o, streams, True, nsteps, first_step))
+    main = [first]
+    if o.first_op_children and pick(draw, [False, False, True]):
+        # the first file entry encloses other calls (with gaps); a childless operator follows so that a path of
+        # positive weight always exists in the whole-trace window
+        first["kids"] = draw(body(o, streams, 1))
+        first["min"] = 0
+        main.append({"t": "op", "name": pick(draw, vocab.CPU_OPS), "cat": "cpu_op", "pre": pick(draw, SMALL), "post": 0, "min": 1, "kids": []})
+    main += draw(thread_program(o, streams, True, nsteps, first_step))
+    for i in range(o.extra_names):
+        main.append({"t": "op", "name": f"op_uniq_r{rank}_{i}", "cat": "cpu_op", "pre": 0, "post": 0, "min": 1, "kids": []})
     if o.ensure_kernel:
         extra = draw(leaf_launch(o, streams))
         extra["fault"] = "none"
@@ -207,13 +221,14 @@ def rank_program(draw, o: Opts, rank: int, nsteps: int, first_step: int) -> Dict
 # ------------------------------------------------------------------------------------------------
 # simulation
 class Sim:
-    def __init__(self, rank: int, epoch: int) -> None:
+    def __init__(self, rank: int, epoch: int, corr_base: Optional[int] = None, pad: int = 0) -> None:
+        self.pad = pad
         self.rank = rank
         self.epoch = epoch
         self.dev = rank % 8
         self.hpid = 5000 + rank
         self.stream_free: Dict[int, int] = {}
-        self.corr = 1000 * (rank + 1)
+        self.corr = 1000 * (rank + 1) if corr_base is None else corr_base + 40 * rank
         self.ext = 0
         self.host: Dict[int, List[Dict[str, Any]]] = {}
         self.device: List[Dict[str, Any]] = []
@@ -296,7 +311,7 @@ class Sim:
 
 
 def simulate_rank(prog: Dict[str, Any], epoch: int) -> Sim:
-    sim = Sim(prog["rank"], epoch)
+    sim = Sim(prog["rank"], epoch, prog.get("corr_base"), prog.get("pad", 0))
     if "lead" in prog:
         # tid below every other host tid so that it is sequence 0 of the merge (first file entry)
         sim._host(sim.hpid - 1, "cpu_op", "aten::empty", prog["lead"]["ts"], prog["lead"]["ts"] + prog["lead"]["dur"], {})
@@ -366,6 +381,11 @@ def merge_order(draw, sim: Sim, extras: bool = True) -> List[Dict[str, Any]]:
                     ex.append({"ph": "f", "id": c, "pid": d["pid"], "tid": d["tid"], "ts": d["ts"], "cat": "ac2g", "name": "ac2g",
                                "bp": "e"})
     seqs.append(ex)
+    if sim.pad:
+        pads = [{"ph": "M", "name": "thread_name", "pid": sim.hpid, "tid": sim.hpid + 100 + i, "args": {"name": f"pt_autograd_{i}"}}
+                for i in range(sim.pad)]
+    else:
+        pads = []
     if mode == "device_last":
         out = [e for s in seqs for e in s]
     else:
@@ -379,6 +399,8 @@ def merge_order(draw, sim: Sim, extras: bool = True) -> List[Dict[str, Any]]:
         for lb in labels:
             out.append(seqs[lb][pos[lb]])
             pos[lb] += 1
+    if pads:
+        out = out[:1] + pads + out[1:]
     return out
 
 
